@@ -25,6 +25,8 @@ from decimal import Decimal
 
 HERE = os.path.dirname(os.path.abspath(__file__))
 EA = "include/romea_core_common/math/EulerAngles.hpp"
+PC = "include/romea_core_common/coordinates/PolarCoordinates.hpp"
+SC = "include/romea_core_common/coordinates/SphericalCoordinates.hpp"
 
 # (coq name, source file, qualified-name filter for clang, method name)
 FUNCS = [
@@ -57,6 +59,46 @@ FUNCS = [
      {"tu": "template double romea::core::rotation2DToEulerAngle<double>(const Eigen::Matrix<double, 2, 2> &);\n"}),
     ("src_rotation3DToEulerAngles", EA, "romea::core::rotation3DToEulerAngles", "rotation3DToEulerAngles",
      {"tu": "template Eigen::Matrix<double, 3, 1> romea::core::rotation3DToEulerAngles<double>(const Eigen::Matrix<double, 3, 3> &);\n"}),
+    # polar / spherical coordinate maps (static member templates of PolarTransform / SphericalTransform at double)
+    ("src_polarRange", PC, "romea::core::PolarTransform::range", "range",
+     {"tu": "template double romea::core::PolarTransform::range<double>(const double, const double &);\n"}),
+    ("src_polarRangeCartesian", PC, "romea::core::PolarTransform::range", "range",
+     {"tu": "template double romea::core::PolarTransform::range<double>(const romea::core::CartesianCoordinates2<double> &);\n"}),
+    ("src_polarRangeHomogeneous", PC, "romea::core::PolarTransform::range", "range",
+     {"tu": "template double romea::core::PolarTransform::range<double>(const romea::core::HomogeneousCoordinates2<double> &);\n"}),
+    ("src_polarAzimut", PC, "romea::core::PolarTransform::azimut", "azimut",
+     {"tu": "template double romea::core::PolarTransform::azimut<double>(const double, const double &);\n"}),
+    ("src_polarAzimutCartesian", PC, "romea::core::PolarTransform::azimut", "azimut",
+     {"tu": "template double romea::core::PolarTransform::azimut<double>(const romea::core::CartesianCoordinates2<double> &);\n"}),
+    ("src_polarAzimutHomogeneous", PC, "romea::core::PolarTransform::azimut", "azimut",
+     {"tu": "template double romea::core::PolarTransform::azimut<double>(const romea::core::HomogeneousCoordinates2<double> &);\n"}),
+    ("src_polarX", PC, "romea::core::PolarTransform::x", "x",
+     {"tu": "template double romea::core::PolarTransform::x<double>(const double &, const double &);\n"}),
+    ("src_polarY", PC, "romea::core::PolarTransform::y", "y",
+     {"tu": "template double romea::core::PolarTransform::y<double>(const double &, const double &);\n"}),
+    ("src_sphRange", SC, "romea::core::SphericalTransform::range", "range",
+     {"tu": "template double romea::core::SphericalTransform::range<double>(const double, const double &, const double &);\n"}),
+    ("src_sphRangeCartesian", SC, "romea::core::SphericalTransform::range", "range",
+     {"tu": "template double romea::core::SphericalTransform::range<double>(const romea::core::CartesianCoordinates3<double> &);\n"}),
+    ("src_sphRangeHomogeneous", SC, "romea::core::SphericalTransform::range", "range",
+     {"tu": "template double romea::core::SphericalTransform::range<double>(const romea::core::HomogeneousCoordinates3<double> &);\n"}),
+    ("src_sphAzimut", SC, "romea::core::SphericalTransform::azimut", "azimut",
+     {"tu": "template double romea::core::SphericalTransform::azimut<double>(const double, const double &);\n"}),
+    ("src_sphElevation", SC, "romea::core::SphericalTransform::elevation", "elevation",
+     {"tu": "template double romea::core::SphericalTransform::elevation<double>(const double, const double &);\n",
+      "param_type": "double"}),
+    ("src_sphElevationCartesian", SC, "romea::core::SphericalTransform::elevation", "elevation",
+     {"tu": "template double romea::core::SphericalTransform::elevation<double>(const romea::core::CartesianCoordinates3<double> &);\n",
+      "param_type": "CartesianCoordinates3"}),
+    ("src_sphElevationHomogeneous", SC, "romea::core::SphericalTransform::elevation", "elevation",
+     {"tu": "template double romea::core::SphericalTransform::elevation<double>(const romea::core::HomogeneousCoordinates3<double> &);\n",
+      "param_type": "HomogeneousCoordinates3"}),
+    ("src_sphX", SC, "romea::core::SphericalTransform::x", "x",
+     {"tu": "template double romea::core::SphericalTransform::x<double>(const double &, const double &, const double &);\n"}),
+    ("src_sphY", SC, "romea::core::SphericalTransform::y", "y",
+     {"tu": "template double romea::core::SphericalTransform::y<double>(const double &, const double &, const double &);\n"}),
+    ("src_sphZ", SC, "romea::core::SphericalTransform::z", "z",
+     {"tu": "template double romea::core::SphericalTransform::z<double>(const double &, const double &);\n"}),
     ("src_enuFrame", "src/geodesy/ENUConverter.cpp", "romea::core::ENUConverter::setAnchor", "setAnchor", {"matrix": "linear"}),
 ]
 # the property (= generated file gen/SrcFuns<unit>.v) each function belongs to: a function the translator cannot handle any more
@@ -67,6 +109,8 @@ UNIT = {"src_makeEllipsoid": "C01", "src_toECEF": "C01", "src_ecefToWGS84": "C01
 
 
 def unit_of(cname):
+    if cname.startswith("src_polar") or cname.startswith("src_sph"):
+        return "C10"
     return UNIT.get(cname, "C03")
 
 
@@ -288,12 +332,44 @@ class Fn:
                 raise Unsupported("aggregate constructor %s used as a scalar" % nm)
             raise Unsupported("call to %s" % nm)
         if k == "CXXMemberCallExpr":
-            # accessor such as position.x(): treat as a variable named by the path
             callee = self.strip(n["inner"][0])
+            if callee.get("kind") == "MemberExpr" and callee.get("name") == "norm" and len(n["inner"]) == 1:
+                # Euclidean norm of a small fixed-size vector parameter, or of its leading segment<k>(0): the square root of
+                # the sum of the squared components (named like the accessors: p_x, p_y, p_z)
+                return self.norm_of(callee["inner"][0])
+            # accessor such as position.x(): treat as a variable named by the path
             if callee.get("kind") == "MemberExpr" and len(n["inner"]) == 1:
                 return self.var(self.path(callee["inner"][0]) + "_" + callee.get("name", "?"))
             raise Unsupported("member call")
         raise Unsupported("expression %s" % k)
+
+    def norm_of(self, obj):
+        import re
+        ty = obj.get("type", {}).get("qualType", "")
+        base = self.strip(obj)
+        k = None
+        if base.get("kind") == "CXXMemberCallExpr":
+            cal = self.strip(base["inner"][0])
+            m = re.search(r"ConstFixedSegmentReturnType<(\d+)>|FixedSegmentReturnType<(\d+)>", base.get("type", {}).get("qualType", ""))
+            start = self.strip(base["inner"][1]) if len(base.get("inner", [])) > 1 else {}
+            if cal.get("kind") != "MemberExpr" or cal.get("name") != "segment" or not m or \
+                    start.get("kind") != "IntegerLiteral" or start.get("value") != "0":
+                raise Unsupported("norm of an expression other than a vector parameter or its segment<k>(0)")
+            k = int(m.group(1) or m.group(2))
+            base = self.strip(cal["inner"][0])
+        else:
+            m = re.search(r"Matrix<(?:double|float), (\d+), 1", ty)
+            if not m:
+                raise Unsupported("norm of a non-vector (%s)" % ty[:60])
+            k = int(m.group(1))
+        if base.get("kind") != "DeclRefExpr" or k not in (2, 3):
+            raise Unsupported("norm of an expression other than a vector parameter")
+        nm = base["referencedDecl"]["name"]
+        comps = [self.var(nm + "_" + c) for c in "xyz"[:k]]
+        acc = "(nmul N %s %s)" % (comps[0], comps[0])
+        for c in comps[1:]:
+            acc = "(nadd N %s (nmul N %s %s))" % (acc, c, c)
+        return "(nsqrt N %s)" % acc
 
     def components(self, n):
         """a returned aggregate: constructor call / init list with scalar arguments, or a local vector"""
